@@ -238,7 +238,14 @@ def roundtrip(ctx, tmp, representable):
         fn = os.path.join(tmp, f"f_{rep}.vtk")
         what = {"representation": rep, **what0}
         try:
-            f.to_file(fn, representation="bin8" if (rep == "bin" and rng.random() < 0.3) else rep)
+            how = gen.pick(rng, ["bin", "bin8", "default", "positional"]) if rep == "bin" else rep
+            if how == "default":      # the documented default of to_file is the binary form
+                f.to_file(fn)
+            elif how == "positional":
+                f.to_file(fn, "bin8")
+            else:
+                f.to_file(fn, representation=how)
+            what["written_as"] = how
             r = df.Field.from_file(fn)
         except Exception as e:  # noqa: BLE001
             ctx.check("C16.roundtrip.loads", False, exc=e, **what)
